@@ -2,12 +2,12 @@
   Token parser for container cases (shared by the C02 / C05 / C04 drivers).
 
     case  := CFG NODE V TABLE [extra tokens…]
-    CFG   := 4 bits: slicePrepend recordKeyPath interPath lazyWrap, optionally `:id,id…` = the members the
+    CFG   := 4 or 5 bits: slicePrepend recordKeyPath interPath lazyWrap [owValidates], optionally `:id,id…` = the members the
              container's code cannot call at all (`Cont.seen`)
     TY    := any|str|int|bool|f64|unit | sl TY | mp TY TY | ptr TY | st n | ot n
     V     := n | a TY id | s TY N V… | sn TY | m TY TY N (V V)… | mn TY TY | t sid N (name V)… | p TY V | pn TY
     MODS  := 3 bits: optional nilable nonOptional
-    CS    := N (min|max|eq n)…
+    CS    := N (min n | max n | eq n | custom 0|1 | overwrite)…
     NODE  := slice MODS TY elem CS | array MODS N items… REST CS | tuple MODS N items… req REST CS
            | map MODS OPT OPT CS | record MODS KS val loose partial CS | set MODS TY elem CS
            | object MODS N (name m opt exopt)… MODE OPT PART CS | struct MODS ptrC sid N (name m opt exopt)…
@@ -86,6 +86,9 @@ def cfgBits (t : String) : Option Cfg :=
   match t.toList with
   | [a, b, c, d] =>
     some { slicePrepend := a == '1', recordKeyPath := b == '1', interPath := c == '1', lazyWrap := d == '1' }
+  | [a, b, c, d, e] =>
+    some { slicePrepend := a == '1', recordKeyPath := b == '1', interPath := c == '1', lazyWrap := d == '1',
+           owValidates := e == '1' }
   | _ => none
 
 def natList (s : String) : Option (List Nat) :=
@@ -106,6 +109,8 @@ def sizeCk : P SizeCk
   | "min" :: ts => do let (n, ts) ← nat ts; some (.min n, ts)
   | "max" :: ts => do let (n, ts) ← nat ts; some (.max n, ts)
   | "eq" :: ts => do let (n, ts) ← nat ts; some (.eq n, ts)
+  | "custom" :: ts => do let (b, ts) ← bit ts; some (.custom b, ts)
+  | "overwrite" :: ts => some (.overwrite, ts)
   | _ => none
 
 def opt : P (Option Nat)
